@@ -1,0 +1,31 @@
+//go:build verif
+
+package verifhook
+
+import "sync"
+
+var (
+	idMu   sync.Mutex
+	idNext int64
+	idOf   = map[any]int64{}
+)
+
+// ID gives a small stable number (1, 2, ...) to an object (compared by pointer identity) so
+// that instrumentation points can name summon slots and swamp instances in their arguments.
+func ID(obj any) int64 {
+	idMu.Lock()
+	defer idMu.Unlock()
+	if v, ok := idOf[obj]; ok {
+		return v
+	}
+	idNext++
+	idOf[obj] = idNext
+	return idNext
+}
+
+// ResetIDs forgets all numbered objects (harness use, between cases).
+func ResetIDs() {
+	idMu.Lock()
+	idOf = map[any]int64{}
+	idMu.Unlock()
+}
